@@ -52,8 +52,10 @@ TIMEOUT = {"quick": 600, "thorough": 2400}
 WORKERS = {"quick": 16, "thorough": 16}
 EXHAUSTIVE = {"quick": False, "thorough": False}
 
-N_MODELS = {"quick": 640, "thorough": 9600}
+N_MODELS = {"quick": 640, "thorough": 6400}
 N_PLACEMENTS = {"quick": 10, "thorough": 54}
+THOROUGH_SCALE = 10            # models: thorough / quick
+THOROUGH_PLACEMENT_SCALE = 5   # placements per model: 54 / 10, rounded down
 PLACEMENTS = ["dram", "sram", "fixed"]
 SETTINGS = [
     None,  # the live cfg.include_energy
@@ -67,25 +69,25 @@ ARITH_SKIPPED = ("QAveragePooling2D", "QGlobalAveragePooling2D", "Maximum", "Min
 
 
 def thresholds(tier):
+  # about one third of what the unchanged tree yields (quick: 640 models x 10 placements)
+  quick = {"models_built": 210, "qtools.built": 200, "count.qtools.checked": 600, "count.estimate.checked": 320,
+           "estimate.ran": 160, "cls.QConv2D": 130, "cls.QConv1D": 55, "cls.QDepthwiseConv2D": 44,
+           "cls.QDense": 150, "cls.Conv2D": 25, "cls.Dense": 28, "cls.pooling": 70, "cls.merge": 85,
+           "geom.strided": 95, "geom.dilated": 50, "geom.same": 180, "geom.valid": 100, "geom.causal": 23,
+           "geom.grouped": 16, "geom.padded_taps": 170, "placements_checked": 1600,
+           "energy.entries_checked": 37000, "energy.formula_checked": 37000, "energy.totals_checked": 1600,
+           "energy.conservation_checked": 1600, "energy.trace_events_checked": 25000,
+           "energy.sums_checked": 6600, "energy.profiles_checked": 6600, "spy.events": 70000,
+           "spy.memory_read_energy": 16000, "spy.memory_write_energy": 9000, "spy.parameter_read_energy": 9000,
+           "spy.OP": 34000, "ref.keras_selfcheck": 95, "distinct_nontrivial": 2400}
   if tier == "quick":
-    return {"models_built": 250, "count.qtools.checked": 500, "count.estimate.checked": 250,
-            "cls.QConv2D": 120, "cls.QConv1D": 30, "cls.QDepthwiseConv2D": 40, "cls.QDense": 100,
-            "cls.Conv2D": 15, "cls.Dense": 15, "cls.pooling": 50, "cls.merge": 60,
-            "geom.strided": 80, "geom.dilated": 40, "geom.same": 100, "geom.valid": 80, "geom.causal": 8,
-            "geom.grouped": 8, "placements_checked": 1500, "energy.entries_checked": 25000,
-            "energy.formula_checked": 25000, "energy.totals_checked": 1500, "energy.sums_checked": 6000,
-            "energy.profiles_checked": 6000, "spy.events": 60000, "spy.memory_read_energy": 15000,
-            "spy.memory_write_energy": 6000, "spy.parameter_read_energy": 6000, "spy.OP": 25000,
-            "ref.keras_selfcheck": 150, "distinct_nontrivial": 2000}
-  return {"models_built": 3000, "count.qtools.checked": 6000, "count.estimate.checked": 3000,
-          "cls.QConv2D": 1500, "cls.QConv1D": 400, "cls.QDepthwiseConv2D": 500, "cls.QDense": 1200,
-          "cls.Conv2D": 200, "cls.Dense": 200, "cls.pooling": 600, "cls.merge": 700,
-          "geom.strided": 1000, "geom.dilated": 500, "geom.same": 1200, "geom.valid": 1000, "geom.causal": 100,
-          "geom.grouped": 100, "placements_checked": 100000, "energy.entries_checked": 1500000,
-          "energy.formula_checked": 1500000, "energy.totals_checked": 100000, "energy.sums_checked": 400000,
-          "energy.profiles_checked": 400000, "spy.events": 4000000, "spy.memory_read_energy": 1000000,
-          "spy.memory_write_energy": 400000, "spy.parameter_read_energy": 400000, "spy.OP": 1500000,
-          "ref.keras_selfcheck": 2000, "distinct_nontrivial": 60000}
+    return quick
+  out = {}
+  for k, v in quick.items():
+    per_placement = k.startswith(("energy.", "spy.", "placements"))
+    out[k] = int(v * THOROUGH_SCALE * (THOROUGH_PLACEMENT_SCALE if per_placement else 1))
+  out["distinct_nontrivial"] = int(quick["distinct_nontrivial"] * THOROUGH_SCALE * 3)
+  return out
 
 
 def cases(tier, seed):
